@@ -66,6 +66,84 @@ pub fn hashes(out: &mut Out, rng: &mut Rng) {
     }
 }
 
+/// C07: authenticators held in a Vec that is too long (right prefix) or too short are rejected by every verify form
+pub fn mac_lengths(out: &mut Out, rng: &mut Rng) {
+    use dryoc::auth::Auth;
+    use dryoc::onetimeauth::OnetimeAuth;
+    let key: [u8; 32] = rng.arr();
+    let k = || StackByteArray::<32>::from(&key);
+    for len in [0usize, 1, 16, 64, 129] {
+        let msg = rng.bytes(len);
+        let (a, o) = (sodium::auth(&msg, &key).to_vec(), sodium::onetimeauth(&msg, &key).to_vec());
+        for (what, f) in [("extended by a zero byte", 0usize), ("extended by a byte", 1), ("one byte short", 2), ("empty", 3), ("doubled", 4)] {
+            let mk = |v: &Vec<u8>| -> Vec<u8> { match f { 0 => [v.clone(), vec![0]].concat(), 1 => [v.clone(), vec![0x5a]].concat(), 2 => v[..v.len() - 1].to_vec(), 3 => vec![], _ => [v.clone(), v.clone()].concat() } };
+            let (a2, o2) = (mk(&a), mk(&o));
+            out.search_evaluations += 4;
+            let rp = json!({"op":"obj.verify.vec-length","key":hx(&key),"msg":hx(&msg),"auth":hx(&a2),"onetimeauth":hx(&o2),"what":what});
+            for (name, r) in [("obj.auth.compute_and_verify", guard(|| Auth::compute_and_verify(&a2, k(), &msg))),
+                              ("obj.auth.verify", guard(|| { let mut x = Auth::new(k()); x.update(&msg); x.verify(&a2) })),
+                              ("obj.onetimeauth.compute_and_verify", guard(|| OnetimeAuth::compute_and_verify(&o2, k(), &msg))),
+                              ("obj.onetimeauth.verify", guard(|| { let mut x = OnetimeAuth::new(k()); x.update(&msg); x.verify(&o2) }))] {
+                if r.is_ok() { out.hit(&format!("{}.accepts-wrong-length", name), format!("authenticator {} (message of {} bytes)", what, len), rp.clone()); }
+                if r.is_panic() { out.hit(&format!("{}.panics-on-wrong-length", name), format!("authenticator {} (message of {} bytes)", what, len), rp.clone()); }
+            }
+        }
+    }
+}
+
+/// C07 / C08 / C06: inputs longer than 64 KiB (one update, and pieces around the 65536-byte mark) against libsodium
+pub fn long_inputs(out: &mut Out, rng: &mut Rng, sign: bool) {
+    use dryoc::sha512::Sha512;
+    let key: [u8; 32] = rng.arr();
+    for len in [65535usize, 65536, 65537, 100_000, 131_073] {
+        let msg = rng.bytes(len);
+        let rp = json!({"op":"long-input","len":len,"key":hx(&key),"msg_prefix":hx(&msg[..32])});
+        if !sign {
+            differ(out, "sha512.compute_to_vec(long)", guard_total(|| Sha512::compute_to_vec(&msg)), &sodium::sha512(&msg), rp.clone());
+            differ(out, "sha512.chunks(long)", guard_total(|| crate::c07::d_sha512_chunks(&[&msg[..5], &msg[5..len - 3], &msg[len - 3..]]).to_vec()), &sodium::sha512(&msg), rp.clone());
+            differ(out, "auth(long)", guard_total(|| crate::c07::d_auth(&msg, &key).to_vec()), &sodium::auth(&msg, &key), rp.clone());
+            differ(out, "auth.chunks(long)", guard_total(|| crate::c07::d_auth_chunks(&key, &[&msg[..70000.min(len)], &msg[70000.min(len)..]]).to_vec()), &sodium::auth(&msg, &key), rp.clone());
+            differ(out, "onetimeauth(long)", guard_total(|| crate::c07::d_onetimeauth(&msg, &key).to_vec()), &sodium::onetimeauth(&msg, &key), rp.clone());
+            differ(out, "generichash(long)", crate::c07::d_generichash(32, &msg, None), &sodium::generichash(32, &msg, None).unwrap(), rp.clone());
+            differ(out, "generichash.chunks(long)", crate::c07::d_generichash_chunks(32, None, &[&msg[..len - 1], &msg[len - 1..]], 32), &sodium::generichash(32, &msg, None).unwrap(), rp.clone());
+        } else {
+            use dryoc::classic::crypto_sign::*;
+            let seed: [u8; 32] = rng.arr();
+            let (pk, sk) = sodium::sign_seed_keypair(&seed);
+            let want = sodium::sign_detached(&msg, &sk);
+            differ(out, "sign.detached(long)", guard(|| { let mut sg = [0u8; 64]; crypto_sign_detached(&mut sg, &msg, &sk)?; Ok::<_, dryoc::Error>(sg.to_vec()) }), &want, rp.clone());
+            // a change in the last bytes of a long message must be noticed
+            for pos in [len - 1, len - 1000.min(len), 65536.min(len - 1)] {
+                let mut m2 = msg.clone(); m2[pos] ^= 1;
+                out.search_evaluations += 1;
+                let sg: [u8; 64] = want.clone().try_into().unwrap();
+                if guard(|| crypto_sign_verify_detached(&sg, &m2, &pk)).is_ok() { out.hit("sign.verify.accepts-changed-long-message", format!("{} bytes, byte {} changed", len, pos), rp.clone()); }
+            }
+            let chunks: [&[u8]; 1] = [&msg[..]];
+            let ph = sodium::sign_ph(&chunks, &sk);
+            differ(out, "sign.ph(long, one update)", guard(|| { let mut st = crypto_sign_init(); crypto_sign_update(&mut st, &msg); let mut sg = [0u8; 64]; crypto_sign_final_create(st, &mut sg, &sk)?; Ok::<_, dryoc::Error>(sg.to_vec()) }), &ph, rp.clone());
+        }
+    }
+}
+
+/// C08: an incremental generic hash keyed with a Vec longer than the nominal key length = the one-shot hash with the same key
+pub fn generichash_vec_keys(out: &mut Out, rng: &mut Rng) {
+    use dryoc::generichash::GenericHash;
+    for klen in [32usize, 33, 48, 64] {
+        let key = rng.bytes(klen);
+        for len in [0usize, 1, 128, 200] {
+            let msg = rng.bytes(len);
+            let cut = rng.below(len as u64 + 1) as usize;
+            let rp = json!({"op":"obj.GenericHash<32,32>.new(Vec key)","key":hx(&key),"msg":hx(&msg),"split":cut});
+            let one = guard(|| GenericHash::<32, 32>::hash_to_vec(&msg, Some(&key)));
+            let inc = guard(|| { let mut h: GenericHash<32, 32> = GenericHash::new(Some(&key))?; h.update(&msg[..cut].to_vec()); h.update(&msg[cut..].to_vec()); h.finalize_to_vec() });
+            out.search_evaluations += 2;
+            if one != inc { out.hit("obj.generichash.incremental-differs-from-oneshot.vec-key", format!("key of {} bytes, message of {} bytes", klen, len), rp.clone()); }
+            if let (Outcome::Ok(o), Some(l)) = (&one, sodium::generichash(32, &msg, Some(&key))) { if *o != l { out.hit("obj.generichash.vec-key.differs-from-libsodium", format!("key of {} bytes", klen), rp.clone()); } }
+        }
+    }
+}
+
 /// C05: key-exchange convenience forms
 pub fn kx(out: &mut Out, rng: &mut Rng) {
     use dryoc::kx::Session;
@@ -113,6 +191,13 @@ pub fn boxes(out: &mut Out, rng: &mut Rng) {
         let bb = sodium::box_easy(&m, &n, &pkb, &ska).unwrap();
         let btag: [u8; 16] = bb[..16].try_into().unwrap();
         differ(out, "box.new_with_data_and_mac+decrypt", guard(|| { let bx: DryocBox<StackByteArray<32>, StackByteArray<16>, Vec<u8>> = DryocBox::new_with_data_and_mac(StackByteArray::<16>::from(&btag), &bb[16..]); bx.decrypt_to_vec(&StackByteArray::<24>::from(&n), &StackByteArray::<32>::from(&pka), &StackByteArray::<32>::from(&skb)) }), &m, rp.clone());
+        // a precomputed key is just a secretbox key: every 32-byte value, the all-zero one included (libsodium's afternm forms accept any)
+        for pk_ in [[0u8; 32], [0xffu8; 32], k] {
+            let want = sodium::secretbox_easy(&m, &n, &pk_);
+            let pre = StackByteArray::<32>::from(&pk_);
+            differ(out, "box.precalc_encrypt(edge key)", guard(|| dryoc::dryocbox::VecBox::precalc_encrypt_to_vecbox(&m, &StackByteArray::<24>::from(&n), &pre)).map(|b| b.to_vec()), &want, rp.clone());
+            differ(out, "box.precalc_decrypt(edge key)", guard(|| dryoc::dryocbox::VecBox::from_bytes(&want).and_then(|b| b.precalc_decrypt_to_vec(&StackByteArray::<24>::from(&n), &pre))), &m, rp.clone());
+        }
         // sealed box
         let sealed = sodium::box_seal(&m, &pkb);
         let epk: [u8; 32] = sealed[..32].try_into().unwrap();
